@@ -87,7 +87,7 @@ def check_alignment(terms, batched, rows="B", per_term=None):
 def run(chk):
     E = LossEnv(chk.repo)
     chk.files = E.w.files
-    thorough = chk.tier == "thorough"
+    thorough = chk.full
     chk.rule("C12.R1", "an equation parameter occurring in a term is the batch's row atom iff its key is batched (top level and "
                        "inside every network call); no unconsumed row axis; no undefined name; caller's parameters not written", floor=12)
     chk.rule("C12.R2", "_get_vmap_in_axes_params: axis 0 exactly for batched keys", floor=4)
